@@ -192,6 +192,10 @@ def check_atom_line(line, exp, hybrid=False):
         return "altLoc (17) %r" % f["altloc"]
     if f["resname"].strip(" ") != exp["res_name"]:
         return "resName (18-20) %r, expected %r" % (f["resname"], exp["res_name"])
+    if f["resname"] != exp["res_name"].rjust(3):
+        # the residue name field is right-justified (' DA', '  A', ' ZN'): this is how every deposited file and every
+        # other PDB reader lays out one- and two-letter residue names
+        return "resName (18-20) %r is not right-justified (expected %r)" % (f["resname"], exp["res_name"].rjust(3))
     if f["chain"] != (exp["chain"] or " "):
         return "chainID (22) %r, expected %r" % (f["chain"], exp["chain"])
     try:
